@@ -37,6 +37,8 @@ def load_corpus():
         # BUILD genrule imported_genfiles: sed s/emboss::test/emboss::test::generated/
         files["testdata/imported_genfiles.emb"] = files["testdata/imported.emb"].replace(
             "emboss::test", "emboss::test::generated")
+    for n, t in COVERING.items():      # construct-rich accepted modules (see COVERING below)
+        files[n] = t
     files["prelude_as_user_file.emb"] = open(os.path.join(REPO, "compiler", "front_end", "prelude.emb"),
                                              encoding="utf-8").read()
     return files
@@ -322,6 +324,159 @@ def gen_program(r, imports=()):
     return ProgGen(r, imports).module()
 
 
+class ValidGen:
+    """Mostly well-formed programs (sequential layout, declared types, typed expressions) with, usually,
+    one seeded semantic slip -- so that the late passes (dependency order, type checking, bounds,
+    attribute and constraint checks, write inference, back end) are the ones that have to react."""
+
+    SLIPS = ["none", "none", "size", "undef", "later", "boolint", "dup", "cycle", "reserved", "huge", "enumrange",
+             "arraysize", "condtype", "attr", "param", "overlap", "bitsbig", "selfref", "byteorder", "negsize", "next"]
+
+    def __init__(self, r):
+        self.r = r
+        self.lines = []
+        self.slip = r.choice(self.SLIPS)
+        self.slip_at = r.randrange(1, 8)
+        self.nfield = 0
+
+    def out(self, ind, s):
+        self.lines.append("  " * ind + s)
+
+    def slipped(self, what):
+        if self.slip == what:
+            self.nfield += 0
+            return self.counter == self.slip_at
+        return False
+
+    def module(self):
+        r = self.r
+        self.counter = 0
+        if self.slip != "byteorder":
+            self.out(0, '[$default byte_order: "%s"]' % r.choice(["LittleEndian", "BigEndian"]))
+        if r.random() < 0.5:
+            self.out(0, '[(cpp) namespace: "gen::%s"]' % r.choice(["a", "b::c"]))
+        enums = []
+        for i in range(r.randrange(0, 3)):
+            nm = "En%d" % i
+            enums.append(nm)
+            self.out(0, "enum %s:" % nm)
+            if r.random() < 0.4:
+                self.out(1, "[maximum_bits: %d]" % r.choice([8, 16, 32, 64]))
+            vals = r.sample(range(0, 200), r.randrange(1, 5))
+            for k, v in enumerate(vals):
+                vv = str(v)
+                if self.slip == "enumrange" and k == 0:
+                    vv = r.choice(["18446744073709551616", "-9223372036854775809", "256 * 256 * 256 * 256 * 256 * 256 * 256 * 256 * 256"])
+                self.out(1, "V%d_%s = %s" % (k, "X", vv))
+        structs = []
+        for si in range(r.randrange(1, 4)):
+            nm = "St%d" % si
+            params = ""
+            if r.random() < 0.2 or self.slip == "param":
+                params = "(n: UInt:8)" if self.slip != "param" else r.choice(["(n: UInt)", "(n: Flag)", "(n: UInt:8, n: UInt:8)", "(n: St0)"])
+            kind = "struct"
+            self.out(0, "%s %s%s:" % (kind, nm, params))
+            if r.random() < 0.2:
+                self.out(1, "-- documentation of %s" % nm)
+            fields = []   # (name, kind)
+            off = 0
+            for fi in range(r.randrange(1, 8)):
+                self.counter += 1
+                fname = "f%d" % fi
+                choice = r.random()
+                ints = [f for f, k in fields if k == "int"]
+                if self.slipped("dup") and fields:
+                    fname = fields[0][0]
+                if self.slipped("reserved"):
+                    fname = r.choice(["class", "int", "this", "for", "return", "switch"])
+                if choice < 0.45 or not fields:
+                    size = r.choice([1, 2, 4, 8])
+                    ty = r.choice(["UInt", "Int", "UInt", "Bcd"])
+                    loc_size = str(size)
+                    if self.slipped("size"):
+                        loc_size = r.choice(["3", "9", "16", "0"])
+                    if self.slipped("huge"):
+                        loc_size = r.choice(["2000", "4294967296", "18446744073709551615", "1152921504606846976"])
+                    if self.slipped("negsize"):
+                        loc_size = "0 - 1"
+                    if self.slipped("boolint"):
+                        loc_size = "true"
+                    start = str(off)
+                    if self.slipped("next"):
+                        start = "$next" if fields else "$next"
+                    if self.slipped("overlap"):
+                        start = "0"
+                    self.out(1, "%s [+%s]  %s  %s" % (start, loc_size, ty, fname))
+                    if r.random() < 0.15 and ty != "Bcd":
+                        self.out(2, "[requires: this %s %d]" % (r.choice(["<", ">", "!=", "=="]), r.randrange(0, 300)))
+                    fields.append((fname, "int"))
+                    if self.slipped("huge") and ints is not None:
+                        self.out(1, "let uses_%s = %s + 1" % (fname, fname))
+                    off += size
+                elif choice < 0.55 and enums:
+                    self.out(1, "%d [+1]  %s  %s" % (off, r.choice(enums), fname))
+                    fields.append((fname, "enum"))
+                    off += 1
+                elif choice < 0.68 and ints:
+                    n = r.choice(ints)
+                    cnt = n if not self.slipped("arraysize") else r.choice(["true", "0 - 1", "undefined_len", "18446744073709551616"])
+                    self.out(1, "%d [+%s]  UInt:8[]  %s" % (off, cnt, fname))
+                    fields.append((fname, "arr"))
+                    off += 0
+                elif choice < 0.78 and ints:
+                    cond = "%s %s %d" % (r.choice(ints), r.choice(["==", "<", ">=", "!="]), r.randrange(0, 9))
+                    if self.slipped("condtype"):
+                        cond = r.choice([ints[0], "1 + 2", "true + 1", "%s && 1" % ints[0]])
+                    if self.slipped("undef"):
+                        cond = "nowhere > 1"
+                    self.out(1, "if %s:" % cond)
+                    self.out(2, "%d [+1]  UInt  %s" % (off, fname))
+                    fields.append((fname, "int"))
+                    off += 1
+                elif choice < 0.9 and ints:
+                    a = r.choice(ints)
+                    b = r.choice(ints)
+                    e = r.choice(["%s + %s", "%s * %s", "%s - %s", "$max(%s, %s)", "%s == %s ? %s : 0" % ("%s", "%s", a)]) % (a, b)
+                    if self.slipped("later"):
+                        e = "f%d + 1" % (fi + 1)
+                    if self.slipped("cycle") or self.slipped("selfref"):
+                        e = "%s + 1" % fname
+                    if self.slipped("boolint"):
+                        e = "%s + true" % a
+                    self.out(1, "let %s = %s" % (fname, e))
+                    fields.append((fname, "int"))
+                elif choice < 0.95:
+                    w = r.choice([1, 2, 4])
+                    self.out(1, "%d [+%d]  bits:" % (off, w))
+                    used = 0
+                    for bi in range(r.randrange(1, 4)):
+                        bw = r.choice([1, 2, 3, 4])
+                        if self.slipped("bitsbig"):
+                            bw = r.choice([65, 128, w * 8 + 1])
+                        t = "Flag" if bw == 1 else "UInt"
+                        self.out(2, "%d [+%d]  %s  %s_b%d" % (used, bw, t, fname, bi))
+                        used += bw
+                    off += w
+                elif structs:
+                    tgt = r.choice(structs)
+                    self.out(1, "%d [+%s]  %s  %s" % (off, "%s.$size_in_bytes" % tgt if r.random() < 0.5 else "8", tgt, fname))
+                    fields.append((fname, "struct"))
+                    off += 8
+                else:
+                    self.out(1, "%d [+4]  Float  %s" % (off, fname))
+                    fields.append((fname, "float"))
+                    off += 4
+                if self.slipped("attr"):
+                    self.out(2, r.choice(['[byte_order: "MiddleEndian"]', "[text_output: 3]", '[requires: "x"]', "[fixed_size_in_bits: 8]",
+                                          '[(cpp) namespace: "x"]', "[byte_order: LittleEndian]", "[$default requires: true]"]))
+            structs.append(nm)
+        return "\n".join(self.lines) + "\n"
+
+
+def gen_valid(r):
+    return ValidGen(r).module()
+
+
 _SYMBOL_TEXT = None
 
 
@@ -383,18 +538,19 @@ def token_spans(text, tokenize):
     if not toks:
         for li, line in enumerate(text.split("\n")):
             for m in re.finditer(r"\S+", line):
-                spans.append((li, m.start(), m.end(), m.group(0)))
+                spans.append((li, m.start(), m.end(), m.group(0), "?"))
         return spans
     for t in toks:
         loc = t.source_location
         if t.text and loc.start.line == loc.end.line and t.text != "\n":
-            spans.append((loc.start.line - 1, loc.start.column - 1, loc.end.column - 1, t.text))
+            spans.append((loc.start.line - 1, loc.start.column - 1, loc.end.column - 1, t.text, t.symbol))
     return spans
 
 
 def gen_mutation(r, text, tokenize):
     lines = text.split("\n")
-    kind = r.choice(["dell", "dupl", "swapl", "indent", "dedent", "tokdel", "tokdup", "tokswap", "tokrep", "chr", "chrdel", "join"])
+    kind = r.choice(["dell", "dupl", "swapl", "indent", "dedent", "tokdel", "tokdup", "tokswap", "tokrep", "chr", "chrdel", "join",
+                     "sem", "sem", "sem", "sem", "sem", "sem"])
     L = list(lines)
     if kind in ("dell", "dupl", "swapl", "indent", "dedent", "join"):
         i = r.randrange(len(L))
@@ -423,8 +579,37 @@ def gen_mutation(r, text, tokenize):
     spans = token_spans(text, tokenize)
     if not spans:
         return kind, text
-    li, c0, c1, tx = r.choice(spans)
-    _, _, _, other = r.choice(spans)
+    if kind == "sem":
+        # keep the syntax, change the meaning: a token is replaced by another token of the same class
+        # taken from the same file (or by a boundary value), so later passes see it
+        cls = r.choice(["Number", "SnakeWord", "CamelWord", "ShoutyWord", "BooleanConstant", "String", "op"])
+        ops = {'"+"', '"-"', '"*"', '"=="', '"!="', '"<"', '"<="', '">"', '">="', '"&&"', '"||"'}
+        if cls == "op":
+            cands = [sp for sp in spans if sp[4] in ops]
+        else:
+            cands = [sp for sp in spans if sp[4] == cls]
+        if not cands:
+            return kind + ":none", text
+        li, c0, c1, tx, sym = r.choice(cands)
+        pool = sorted({sp[3] for sp in cands})
+        if cls == "Number":
+            pool += ["0", "1", "7", "8", "63", "64", "65", "255", "256", "4294967296", "18446744073709551615",
+                     "18446744073709551616", "true", "x", "-1", "(0-1)", "$size_in_bytes", "$next"]
+        elif cls == "CamelWord":
+            pool += ["UInt", "Int", "Flag", "Bcd", "Float", "Nope"]
+        elif cls == "BooleanConstant":
+            pool += ["true", "false", "0", "1"]
+        elif cls == "String":
+            pool += ['"LittleEndian"', '"BigEndian"', '"Null"', '""', '"x"', '"a::b"', '"kCamel"']
+        elif cls == "op":
+            pool = [x.strip('"') for x in ops]
+        elif cls == "SnakeWord":
+            pool += ["this", "undefined_name"]
+        new = r.choice(pool)
+        L[li] = L[li][:c0] + new + L[li][c1:]
+        return "sem:" + cls, "\n".join(L)
+    li, c0, c1, tx, _ = r.choice(spans)
+    _, _, _, other, _ = r.choice(spans)
     if kind == "tokdel":
         new = ""
     elif kind == "tokdup":
@@ -440,7 +625,7 @@ def gen_mutation(r, text, tokenize):
 def truncation_points(text, tokenize):
     """Every token boundary (start and end of every token) as (line0, col0)."""
     pts = set()
-    for li, c0, c1, _ in token_spans(text, tokenize):
+    for li, c0, c1, _, _ in token_spans(text, tokenize):
         pts.add((li, c0))
         pts.add((li, c1))
     return sorted(pts)
